@@ -272,3 +272,12 @@ def run(ctx, rep, tier):
     _run_d05(ctx, rep, tier)
     from .shared import delegate
     delegate(ctx, rep, tier, "C05", ("C05.d",), "C02.h", "override modes / targets of conditional actions cover every branch: the in-call continuation after a redirecting action re-dispatches instead of jumping to the stale target")
+
+
+_run_q01 = run
+
+
+def run(ctx, rep, tier):
+    _run_q01(ctx, rep, tier)
+    from .shared import delegate
+    delegate(ctx, rep, tier, "C01", ("C01.q",), "C02.i", "no state is left without a transition for some byte by loop conversion (such a byte makes feed() return OK mid-chunk: the outcome then depends on chunking)")
